@@ -46,6 +46,10 @@ type ltr struct {
 	g       []string        // bounds guards of the expression being translated
 	inFunc  bool            // a `return` is allowed here (not inside a loop body / join)
 	retCls  string
+	flat    map[string]bool // x_f for fields of local struct variables read inside an extracted loop
+	inLoop  int             // > 0: `break` allowed (leaves the innermost loop)
+	brk     bool            // the loop being translated contains a break: its body yields (continue?, state)
+	brkRet  string          // what `break` evaluates to in that body
 }
 
 func (t *ltr) clsL(ty types.Type) string {
@@ -59,6 +63,17 @@ func (t *ltr) clsL(ty types.Type) string {
 		return "?"
 	}
 	return t.cls(ty)
+}
+
+// Go identifiers that would capture a name the generated text uses
+var reserved = map[string]bool{"res": true, "bind": true, "inb": true, "nthN": true, "u64": true, "i64": true, "fuel": true, "st": true,
+	"Ret": true, "Panic": true, "OutOfFuel": true, "cont": true, "length": true, "nth": true, "negb": true, "NULLENTRY": true}
+
+func mangle(n string) string {
+	if reserved[n] {
+		return n + "_"
+	}
+	return n
 }
 
 func coqTy(c string) string {
@@ -96,10 +111,13 @@ func (t *ltr) varName(e ast.Expr) (string, bool) {
 	case *ast.ParenExpr:
 		return t.varName(x.X)
 	case *ast.Ident:
-		return x.Name, true
+		return mangle(x.Name), true
 	case *ast.SelectorExpr:
 		if id, ok := x.X.(*ast.Ident); ok && t.recv != "" && id.Name == t.recv && t.info.Uses[id] == t.recvObj {
 			return t.recv + "_" + x.Sel.Name, true
+		}
+		if id, ok := x.X.(*ast.Ident); ok && t.flat[id.Name+"_"+x.Sel.Name] {
+			return id.Name + "_" + x.Sel.Name, true
 		}
 	}
 	return "", false
@@ -119,10 +137,10 @@ func (t *ltr) lexpr(e ast.Expr) string {
 		if x.Name == "true" || x.Name == "false" {
 			return x.Name
 		}
-		if !t.inScope(x.Name) {
+		if !t.inScope(mangle(x.Name)) {
 			return t.fail(e, "variable "+x.Name+" not in scope")
 		}
-		return x.Name
+		return mangle(x.Name)
 	case *ast.SelectorExpr:
 		if n, ok := t.varName(x); ok {
 			t.declare(n, c)
@@ -221,6 +239,9 @@ func (t *ltr) lexpr(e ast.Expr) string {
 			}
 		}
 	case *ast.CallExpr:
+		if id, ok := x.Fun.(*ast.Ident); ok && id.Name == "append" && len(x.Args) == 2 && c == "L" && t.clsL(t.info.Types[x.Args[1]].Type) == "N" {
+			return "(" + t.lexpr(x.Args[0]) + " ++ [" + t.lexpr(x.Args[1]) + "])"
+		}
 		if id, ok := x.Fun.(*ast.Ident); ok && id.Name == "len" && len(x.Args) == 1 && t.clsL(t.info.Types[x.Args[0]].Type) == "L" {
 			return "(Z.of_nat (length " + t.lexpr(x.Args[0]) + "))"
 		}
@@ -303,7 +324,7 @@ func (t *ltr) assignedIn(list []ast.Stmt, out map[string]bool, local map[string]
 			if !t.assignedIn(l, out, local) {
 				return false
 			}
-		case *ast.ReturnStmt, *ast.ExprStmt:
+		case *ast.ReturnStmt, *ast.ExprStmt, *ast.BranchStmt:
 		default:
 			return false
 		}
@@ -379,6 +400,9 @@ func terminal(list []ast.Stmt) bool {
 	}
 	last := list[len(list)-1]
 	_, isRet := last.(*ast.ReturnStmt)
+	if b, ok := last.(*ast.BranchStmt); ok && b.Tok == token.BREAK && b.Label == nil {
+		return true
+	}
 	return isRet || isPanic(last)
 }
 
@@ -405,6 +429,10 @@ func (t *ltr) lstmts(list []ast.Stmt, k string, ind string) string {
 		if isPanic(s) {
 			return "Panic"
 		}
+	case *ast.BranchStmt:
+		if x.Tok == token.BREAK && x.Label == nil && t.inLoop > 0 && t.brk {
+			return t.brkRet
+		}
 	case *ast.IncDecStmt:
 		if n, ok := t.varName(x.X); ok && t.inScope(n) {
 			c := t.clsL(t.info.Types[x.X].Type)
@@ -430,8 +458,17 @@ func (t *ltr) lstmts(list []ast.Stmt, k string, ind string) string {
 				break
 			}
 			rhs := x.Rhs[0]
+			if (x.Tok == token.ADD_ASSIGN || x.Tok == token.SUB_ASSIGN) && c == "Z" && t.inScope(n) {
+				op := " + "
+				if x.Tok == token.SUB_ASSIGN {
+					op = " - "
+				}
+				return t.guarded(func() string { return t.lexpr(rhs) }, func(v string) string {
+					return "let " + n + " := " + wrap(c, "("+n+op+v+")%Z") + " in\n" + ind + t.lstmts(rest, k, ind)
+				})
+			}
 			if x.Tok != token.ASSIGN && x.Tok != token.DEFINE {
-				break // op= : not needed so far, keep the subset small
+				break
 			}
 			if x.Tok == token.ASSIGN && !t.inScope(n) {
 				if _, isSel := x.Lhs[0].(*ast.SelectorExpr); !isSel {
@@ -512,10 +549,20 @@ func (t *ltr) lstmts(list []ast.Stmt, k string, ind string) string {
 		saved, sc := t.inFunc, len(t.scope)
 		t.inFunc = false
 		cond := ""
+		savedBrk, savedRet := t.brk, t.brkRet
+		t.brk = hasBreak(x.Body.List)
+		t.brkRet = "Ret (false, " + tupleV(vs) + ")"
+		t.inLoop++
 		loopBody := t.guarded(func() string { cond = t.lexpr(x.Cond); return cond }, func(c string) string {
+			if t.brk {
+				b := t.lstmts(body, "Ret (true, "+tupleV(vs)+")", "        ")
+				return "  if " + c + " then\n    match fuel with\n    | O => OutOfFuel\n    | S fuel' =>\n      bind (" + b + ")\n        (fun '(cont, st') => if (cont : bool) then " + lname + " fuel' " + strings.Join(names(params), " ") + " st' else Ret st')\n    end\n  else Ret " + tupleV(vs)
+			}
 			b := t.lstmts(body, "Ret "+tupleV(vs), "        ")
 			return "  if " + c + " then\n    match fuel with\n    | O => OutOfFuel\n    | S fuel' =>\n      bind (" + b + ")\n        (fun st' => " + lname + " fuel' " + strings.Join(names(params), " ") + " st')\n    end\n  else Ret " + tupleV(vs)
 		})
+		t.inLoop--
+		t.brk, t.brkRet = savedBrk, savedRet
 		t.scope = t.scope[:sc]
 		t.inFunc = saved
 		t.aux = append(t.aux, fmt.Sprintf("Fixpoint %s (fuel : nat) %s (st : %s) {struct fuel} : res (%s) :=\n  let %s := st in\n%s.\n",
@@ -606,7 +653,7 @@ func translateLoopFuncs(p *packages.Package, want []string) (defs []string, errs
 			t.fname = name
 			for _, fl := range fd.Type.Params.List {
 				for _, n := range fl.Names {
-					t.declare(n.Name, t.clsL(p.TypesInfo.TypeOf(fl.Type)))
+					t.declare(mangle(n.Name), t.clsL(p.TypesInfo.TypeOf(fl.Type)))
 				}
 			}
 			nparams := len(t.scope)
@@ -685,6 +732,121 @@ func cursorGen(pkgs map[string]*packages.Package) (string, []string) {
 	}
 	sb.WriteString("\n")
 	defs, errs := translateLoopFuncs(p, cursorFuncs)
+	for _, d := range defs {
+		sb.WriteString(d + "\n")
+	}
+	return sb.String(), errs
+}
+
+// a `break` that leaves THIS loop (not one of a nested for / switch / select)
+func hasBreak(list []ast.Stmt) bool {
+	found := false
+	var walk func(n ast.Node) bool
+	walk = func(n ast.Node) bool {
+		switch x := n.(type) {
+		case *ast.ForStmt, *ast.RangeStmt, *ast.SwitchStmt, *ast.TypeSwitchStmt, *ast.SelectStmt, *ast.FuncLit:
+			return false
+		case *ast.BranchStmt:
+			if x.Tok == token.BREAK && x.Label == nil {
+				found = true
+			}
+		}
+		return true
+	}
+	for _, s := range list {
+		ast.Inspect(s, walk)
+	}
+	return found
+}
+
+// translateLoopsIn extracts every three-clause `for` statement found anywhere inside function `fn` (in case clauses,
+// range bodies, ...) and translates each as a definition of its own: parameters = the variables (and integer fields
+// x.f of local struct variables) the loop reads from outside, result = the tuple of outer variables it assigns.
+func translateLoopsIn(p *packages.Package, fn string) (defs []string, errs []string) {
+	for _, f := range p.Syntax {
+		for _, d := range f.Decls {
+			fd, ok := d.(*ast.FuncDecl)
+			if !ok || fd.Body == nil {
+				continue
+			}
+			name := fd.Name.Name
+			if fd.Recv != nil && len(fd.Recv.List) == 1 {
+				name = recvName(p.TypesInfo.TypeOf(fd.Recv.List[0].Type)) + "_" + name
+			}
+			if name != fn {
+				continue
+			}
+			k := 0
+			ast.Inspect(fd.Body, func(n ast.Node) bool {
+				fs, ok := n.(*ast.ForStmt)
+				if !ok || fs.Init == nil || fs.Cond == nil {
+					return true
+				}
+				k++
+				dn := fmt.Sprintf("%s_for%d", fn, k)
+				base := &tr{info: p.TypesInfo, fset: p.Fset}
+				t := &ltr{tr: base, p: p, fname: dn, flat: map[string]bool{}}
+				// free variables, in order of first occurrence
+				ast.Inspect(fs, func(m ast.Node) bool {
+					switch x := m.(type) {
+					case *ast.SelectorExpr:
+						if id, ok := x.X.(*ast.Ident); ok {
+							if v, ok := p.TypesInfo.Uses[id].(*types.Var); ok && (v.Pos() < fs.Pos() || v.Pos() > fs.End()) {
+								if c := t.clsL(p.TypesInfo.TypeOf(x)); c != "?" {
+									t.flat[id.Name+"_"+x.Sel.Name] = true
+									t.declare(id.Name+"_"+x.Sel.Name, c)
+								}
+								return false
+							}
+						}
+					case *ast.Ident:
+						if v, ok := p.TypesInfo.Uses[x].(*types.Var); ok && !v.IsField() && (v.Pos() < fs.Pos() || v.Pos() > fs.End()) {
+							if c := t.clsL(v.Type()); c != "?" {
+								t.declare(mangle(x.Name), c)
+							}
+						}
+					}
+					return true
+				})
+				nparams := len(t.scope)
+				vs, ok := t.stateVars(fs, []ast.Stmt{fs})
+				text := ""
+				if ok {
+					var pdecl []string
+					for _, v := range t.scope[:nparams] {
+						pdecl = append(pdecl, fmt.Sprintf("(%s : %s)", v.name, coqTy(v.cls)))
+					}
+					body := t.lstmts([]ast.Stmt{fs}, "Ret "+tupleV(vs), "  ")
+					text = strings.Join(t.aux, "\n")
+					if len(t.aux) > 0 {
+						text += "\n"
+					}
+					text += fmt.Sprintf("Definition %s (fuel : nat) %s : res (%s) :=\n  %s.\n", dn, strings.Join(pdecl, " "), tupleTy(vs), body)
+				}
+				if len(t.errs) > 0 || strings.Contains(text, "UNTRANSLATABLE") || text == "" {
+					text = fmt.Sprintf("Definition %s_untranslatable := tt.\n", dn)
+					errs = append(errs, t.errs...)
+					if len(t.errs) == 0 {
+						errs = append(errs, dn+": outside the translated subset")
+					}
+				}
+				defs = append(defs, text)
+				return false
+			})
+		}
+	}
+	if len(defs) == 0 {
+		defs = append(defs, fmt.Sprintf("Definition %s_for1_untranslatable := tt. (* no loop found *)\n", fn))
+		errs = append(errs, "no loop found in "+fn)
+	}
+	return defs, errs
+}
+
+func rangeLoopGen(pkgs map[string]*packages.Package) (string, []string) {
+	var sb strings.Builder
+	sb.WriteString("(* generated from /repo (parser/range_parser.go: the enumeration loops of NumberRangeParser.ParseValue) by /verif/harness (vh xlate) -- do not edit; regenerated on every run *)\n")
+	sb.WriteString("From BE Require Export Gen.CursorGen.\nFrom Coq Require Import NArith ZArith Bool List.\nImport ListNotations.\nLocal Open Scope bool_scope.\n\n")
+	defs, errs := translateLoopsIn(pkgs[mod+"/parser"], "NumberRangeParser_ParseValue")
 	for _, d := range defs {
 		sb.WriteString(d + "\n")
 	}
